@@ -279,6 +279,8 @@ def main():
     harness_fault = None
     try:
         for cfg, share in plan:
+            if violations:
+                break       # the tree already violates the property: the remaining configurations add nothing to the verdict
             nw = min(nworkers, 8) if cfg == "san" else nworkers      # 8 ASan workers is the knee
             chunk = 8 if prop == "C20" else 0       # C20: one run in eight starts from a fresh process image
             if tier == "quick" and budget <= 0:
